@@ -156,6 +156,23 @@ def cases(seed, tier):
         i = r.choice(IDS)
         yield ["opt", "id:%d" % i, randword(r, "".join(sorted(by_aa(i))), L), "1"]
     # ---- tables with no start / stop codon lists (Optimize only looks at the amino acids)
+    # ---- position 0: a protein that STARTS with M (every random protein does) under tables where ATG is not eligible for M
+    for _ in range(6 if not thorough else 60):
+        i = r.choice(IDS)
+        cds = biased_cds(r, i, r.randint(100, 500)).replace("ATG", "")       # no ATG at all: in most codes M is then unencodable
+        cds = "".join(c for c in (cds[j:j + 3] for j in range(0, len(cds) - 2, 3)) if c != "ATG")
+        enc = encodable_letters(i, cds) or "A"
+        yield ["opt", "rw:%d:%s" % (i, cds), "M" + randword(r, enc, r.randint(2, 30)), "3"]
+        yield ["rp", str(r.randint(3, 40)), str(r.randrange(0, 10 ** 6)), "rw:%d:%s" % (i, cds)]
+    for i in [2, 3, 5, 13, 21]:                                                  # M = ATA or ATG: make ATG rare (share <= 10 %) or absent
+        for natg in ([0, 1] if not thorough else [0, 1, 2, 3]):
+            cds = biased_cds(r, i, 300)
+            cds = "".join(c for c in (cds[j:j + 3] for j in range(0, len(cds) - 2, 3)) if c not in ("ATG", "ATA"))
+            cds += "ATA" * 30 + "ATG" * natg
+            enc = encodable_letters(i, cds)
+            body = "".join(a for a in enc if a != "M") or "M"
+            yield ["union", "rw:%d:%s" % (i, cds), "M" + randword(r, body, 20) + "MM", "40"]
+            yield ["rp", str(r.randint(3, 40)), str(r.randrange(0, 10 ** 6)), "rw:%d:%s" % (i, cds)]
     # a coding sequence in lower / mixed case re-weights like its upper case
     yield ["opt", "rw:11:atgAAAaaaAAGtaa", "MK*", "5"]
     # ---- hand-written tables
@@ -261,6 +278,7 @@ def cases(seed, tier):
         if enc:
             mixed.append(("rw:%d:%s" % (i, cds), enc))
     mixed.append(("txt:" + above, "".join(sorted(by_aa(1)))))
+    mixed.append(("id:11", "".join(sorted(by_aa(11)))))     # uniform weights: every synonym must be emitted, each equally often
     for spec, enc in mixed:
         yield ["freqmix", spec, "".join(r.sample(enc * reps, reps * len(enc))), str(calls)]
     # ---- adjacent picks are independent: codon-pair counts for a two-letter repeat (statistical)
